@@ -14,6 +14,7 @@ CLAIM = (
     "text is present on the function; ARTICLE: in the tokenisation loop, while an article is pending and the current part is a word, the only "
     "thing added to the tokens is ONE string containing both (so the re-flow, which moves whole tokens, cannot end a segment on the article); "
     "PURE: the function touches no module-level mutable container, or keys it by every parameter."
+    " WIDTH also requires that the whole text is returned as one segment only for a single token or under len(text) <= line_width; ARTICLE also rejects emitting the current part on its own while it is an article (it has to wait for the next part)."
 )
 NOTE = (
     "Trusted base: the linear-form normaliser (sa/rules/lin.py) and the recognised update forms (x = 0 / [] , x = len(token) / [token], "
@@ -47,6 +48,7 @@ def run(ctx) -> None:
 
     # the re-flow loop: the for loop containing `<result>.append`
     _check_articles(ctx, f)
+    _check_whole_text_returns(ctx, f)
     _check_pure(ctx, f)
 
     def _ret_name(n: ast.Return):
@@ -200,6 +202,43 @@ def _update_form(s: ast.stmt, n_var: str, l_var: str, tok: str) -> Optional[Tupl
 ARTICLES_TEST = ("'a'", "'an'", "'the'")
 
 
+def _check_whole_text_returns(ctx, f) -> None:
+    """`return [text]` hands the whole input back as one segment: sound only when the text is a single token (no space to break
+    at) or when its own length - not the length of something derived from it - is within the width."""
+    from ..rules import schema as S
+
+    parents = S.parents_of(f)
+    text = f.node.args.args[0].arg
+    width = f.node.args.args[1].arg if len(f.node.args.args) > 1 else "line_width"
+    split_vars = {a.targets[0].id for a in ast.walk(f.node) if isinstance(a, ast.Assign) and len(a.targets) == 1 and isinstance(a.targets[0], ast.Name)
+                  and isinstance(a.value, ast.Call) and ast.unparse(a.value.func) == f"{text}.split"}
+    n = 0
+    for r in [x for x in ast.walk(f.node) if isinstance(x, ast.Return)]:
+        v = r.value
+        if not (isinstance(v, ast.List) and len(v.elts) == 1 and isinstance(v.elts[0], ast.Name) and v.elts[0].id == text):
+            continue
+        n += 1
+        disj = []
+        for t, pol in S.guards_of(r, parents):
+            if pol and isinstance(t, ast.BoolOp) and isinstance(t.op, ast.Or):
+                disj.extend(t.values)
+            else:
+                disj.append(t if pol else ast.UnaryOp(op=ast.Not(), operand=t))
+        bad = []
+        for d in disj:
+            txt = ast.unparse(d)
+            single = any(txt in (f"len({sv}) == 1", f"len({sv}) <= 1", f"len({sv}) < 2") for sv in split_vars)
+            fits = txt in (f"len({text}) <= {width}", f"len({text}) < {width}")
+            if not (single or fits):
+                bad.append(txt)
+        what = "wrap_text_into_lines: the whole text is returned as one segment only if it is a single token or fits"
+        if bad or not disj:
+            ctx.fail("WIDTH", f, r, f"`return [{text}]` is reached under {bad or 'no condition'}: that neither makes the text a single token nor bounds len({text}) by {width}, so a text with spaces can come back as one segment longer than the width", construct=what)
+        else:
+            ctx.ok("WIDTH", f, r, what=what)
+    ctx.require_anchor(n >= 1, "wrap_text_into_lines has the single-token shortcut `return [text]`")
+
+
 def _check_articles(ctx, f) -> None:
     """Tokenisation loop: ``article`` holds a pending article.  In the arm where an article is pending and the current part
     is NOT an article (a following word exists), every element added to the tokens must be ONE string containing both the
@@ -243,6 +282,11 @@ def _check_articles(ctx, f) -> None:
                     if {pend, part} <= vn:
                         fused_vars.add(a.targets[0].id)
             fused = ({pend, part} <= names) or bool(names & fused_vars)
+            if is_article and all(is_article) and names == {part}:
+                # the current part is an article: it has to wait for the next part, it cannot be emitted on its own here
+                n_checked += 1
+                ctx.fail("ARTICLE", f, c, f"the current part is an article and `{short(e)}` is added as a token of its own instead of being kept pending: if a word follows, the re-flow can end a segment between the article and that word", construct="current article emitted without waiting for the next part")
+                continue
             if not word_follows:
                 continue
             n_checked += 1
